@@ -238,6 +238,9 @@ func c19RunInner(c lib.Case, env *lib.Env) lib.Result {
 	// the source directory is named in a legal, non-canonical way in two cases out of three
 	os.MkdirAll(filepath.Join(env.Scratch, "x"), 0o755)
 	spell := []string{src, src + "/", src + "/.", env.Scratch + "//src", env.Scratch + "/./src", env.Scratch + "/x/../src", src, src + "//", src}[c.ID%9]
+	if s.Format == "tar" { // few tar cases: each one gets a non-canonical spelling
+		spell = []string{src + "/.", env.Scratch + "//src", env.Scratch + "/./src", env.Scratch + "/x/../src"}[c.ID%4]
+	}
 	if spell != src {
 		desc += " sourceDirSpelled=" + strings.Replace(spell, env.Scratch, "<scratch>", 1)
 		res.Add("archives_of_a_source_directory_named_non_canonically", 1)
